@@ -80,12 +80,19 @@ MUTANTS = [
     {"id": "C06-revert-F2-generator-not-restored", "prop": "C06", "revert": ["SUBJECT:a LazySeq whose generator raised"]},
     {"id": "C06-revert-iterate-lazy-step", "prop": "C06", "revert": ["SUBJECT:iterate does not call f until"]},
     {"id": "C06-revert-concat-resumable", "prop": "C06", "revert": ["SUBJECT:concat survives an exception"]},
+    {"id": "C06-revert-interpose-lazy", "prop": "C06", "revert": ["SUBJECT:interpose does not realize the element after"]},
     {"id": "C06-map-calls-f-twice", "prop": "C06", "edits": [
         R(CORE, "      (cons (f (first coll)) (map f (rest coll))))))\n  ([f coll & colls]",
           "      (do (f (first coll)) (cons (f (first coll)) (map f (rest coll)))))))\n  ([f coll & colls]")]},
     {"id": "C06-filter-realizes-one-ahead", "prop": "C06", "edits": [
         R(CORE, "    (when-let [coll (seq coll)]\n      (if (pred (first coll))\n        (cons (first coll) (filter pred (rest coll)))",
           "    (when-let [coll (seq coll)]\n      (seq (rest coll))\n      (if (pred (first coll))\n        (cons (first coll) (filter pred (rest coll)))")]},
+    {"id": "C06-take-nth-realizes-ahead", "prop": "C06", "edits": [
+        R(CORE, "              (take-nth n (drop (dec n) (rest coll)))))))))", "              (take-nth n (seq (drop (dec n) (rest coll))))))))))")]},
+    {"id": "C06-mapcat-eager", "prop": "C06", "edits": [
+        R(CORE, "   (apply concat (apply map f colls))))", "   (apply concat (doall (apply map f colls)))))")]},
+    {"id": "C06-partition-by-drops-via-doall", "prop": "C06", "edits": [
+        R(CORE, "        (cons run (partition-by f (seq (drop (count run) coll)))))))))", "        (cons run (partition-by f (doall (drop (count run) coll)))))))))")]},
     # ---- C14
     {"id": "C14-revert-F7-keyword-hash", "prop": "C14", "revert": ["SUBJECT:keywords from cached bytecode are interned"]},
     {"id": "C14-mtime-not-checked", "prop": "C14", "edits": [
